@@ -105,7 +105,23 @@ def run_construct(fs, ts, rounds: int, max_candidates: int | None = None, max_yi
     of (round, all_p_calls_so_far, predicate).  The generator is observed, not re-implemented: `create_mutations` and `all_p`
     as seen by the module are wrapped to count round boundaries and examined candidates and to stop the run."""
     state = {"round": 0, "all_p": 0}
-    real_all, real_mut = C.all_p, C.create_mutations
+    real_all, real_mut = getattr(C, "all_p", None), getattr(C, "create_mutations", None)
+    if real_all is None or real_mut is None:
+        # the module no longer has the two names the observation hooks into: observe the plain stream, bounded by yields and time only
+        out, why = [], "yield budget (construct.py has no all_p / create_mutations to observe rounds through)"
+        old = signal.signal(signal.SIGALRM, _on_alarm)
+        signal.setitimer(signal.ITIMER_REAL, min(seconds, 5.0))
+        try:
+            for p in C.construct(fs, ts):
+                out.append((0, len(out), p))
+                if len(out) >= (max_yields or 40):
+                    break
+        except _Alarm:
+            why = "alarm"
+        finally:
+            signal.setitimer(signal.ITIMER_REAL, 0)
+            signal.signal(signal.SIGALRM, old)
+        return out, {"stopped_by": why, "rounds_entered": 1, "candidates_examined": len(out)}
 
     def all_w(p):
         state["all_p"] += 1
@@ -351,6 +367,8 @@ def search(payload):
     rng.random()                      # a different stream than the correspondence run
     deep = bool(payload.get("deep")) or payload.get("tier") == "thorough"
     pairs = set_pairs(rng, 600 if deep else 250)
+    if getattr(C, "all_p", None) is None or getattr(C, "create_mutations", None) is None:
+        pairs = pairs[:30]            # rounds cannot be observed: every run is bounded by yields/time only, so fewer of them
     fails, n, samples, total_yields = [], 0, [], 0
     for fs, ts in pairs:
         ys, info = run_construct(fs, ts, rounds=2, seconds=30)
@@ -358,6 +376,14 @@ def search(payload):
         n += check_run(fs, ts, ys, info, fails, "rounds 0-1")
         if len(fails) >= 12:
             break
+    # LARGE example sets (33-120 examples; values equal across types far apart; one type with truthy and falsy members)
+    big_pairs = [([0], list(range(1, 33)) + ["x"]), ([0], list(range(1, 34))), (["n/a", None], [1, 2, 3] * 25 + [2.0]), ([None, ""], list(range(1, 40)) + [0]),
+                 (["a"] * 40 + [1.0], list(range(50))), ([True] * 33 + [0], ["s"] * 33), (list(range(40)), [None] * 35 + [False]),
+                 ([None, ""], [0.5] * 70 + [1]), ([1.0] + [1] * 64, ["x", "y"]), ([[1]] * 33 + [()], [{"k": 1}] * 34)]
+    for fs, ts in big_pairs:
+        ys, info = run_construct(fs, ts, rounds=2, seconds=60)
+        total_yields += len(ys)
+        n += check_run(fs, ts, ys, info, fails, "rounds 0-1, large example sets")
     # into round 2 (263,536 candidates, built in one go by the implementation): the complete round for a few pairs
     # that yield something there, every yield checked
     deep_pairs = [pr for pr in pairs if pr[0] or pr[1]]
